@@ -37,7 +37,7 @@ pub fn run(ctx: &Ctx) -> Report {
                 if parameterless {
                     1 << 16
                 } else {
-                    1 << 11
+                    1 << 12
                 }
             }
             Tier::Thorough => 1 << 16,
